@@ -105,10 +105,8 @@ fn copy_into_writer(reader: &mut Source, writer: &mut PagedWriter) -> (r: std::r
 //@enditem
 
 impl BlobSectionHeader {
-//@item src/blob.rs const SIZE owner=BlobSectionHeader
-//@enditem
+//@consts src/blob.rs BlobSectionHeader
 //@fn src/blob.rs BlobSectionHeader from_array serves=C06,C08 ret=r
-//@rw u64::from_le_bytes\(\s*buffer\[(\d+)\.\.(\d+)\]\.try_into\(\)\.internal_err\(WRONG_OFFSET\)\?,?\s*\) ==> shim_le_u64(buffer, \1, \2)?
 //@sig
         ensures match r {
             Ok(h) => buffer@[0] == 0u8 && le_bytes64(h.section_length) == buffer@.subrange(8, 16),
@@ -131,7 +129,6 @@ impl BlobSectionHeader {
 //@fn src/blob.rs BlobSectionHeader to_writer serves=C06,C02,C16 ret=r
 //@rw <T: Read \+ Write \+ Seek> ==> <empty>
 //@rw PagedWriter<T> ==> PagedWriter
-//@rw u64::to_le_bytes\(self\.section_length\) ==> shim_u64_to_le_bytes(self.section_length)
 //@sig
         requires old(writer).wf(),
         ensures match r {
